@@ -5,61 +5,10 @@ import RoaringModel.SpecCursor64
 namespace Roaring.Driver
 open Roaring
 
-/-! ### stand-in until Ops.lean / MultiOps.lean are merged
-The treemap code is parametrised over the 32-bit operations (`Ops32`).  Until the mirrored 32-bit binary
-ops (family `algebra`) and multi-ops (family `multi`) are available, the driver instantiates them with
-the *specification* of each operation: the canonical (well-formed) bitmap of `Spec.sOr (elems a) (elems b)`
-etc.  Replace `standInOps32` by the mirrored functions at merge. -/
-
-/-- stand-in until Ops.lean is merged: the 1024 words of a sorted list of `u16` -/
-def wordsFrom : Nat → Nat → List Nat → List Nat
-  | _, 0, _ => []
-  | k, fuel + 1, v =>
-    let cur := v.takeWhile (fun i => i / 64 == k)
-    (cur.foldl (fun w i => w ||| (1 <<< (i % 64))) 0) :: wordsFrom (k + 1) fuel (v.dropWhile (fun i => i / 64 == k))
-
-/-- stand-in until Ops.lean is merged: the canonical store of a sorted list of `u16` -/
-def storeOfSorted (lows : List Nat) : Store :=
-  if lows.length ≤ ARRAY_LIMIT then .array lows else .bitmap { len := lows.length, bits := wordsFrom 0 1024 lows }
-
-/-- stand-in until Ops.lean is merged: the canonical bitmap of a strictly ascending list of `u32` -/
-def bitmapOfSorted (els : List Nat) : Bitmap :=
-  let groups := els.foldl (fun (acc : List (Nat × List Nat)) x => match acc with
-    | (k, lows) :: rest => if k = x / 65536 then (k, (x % 65536) :: lows) :: rest else (x / 65536, [x % 65536]) :: acc
-    | [] => [(x / 65536, [x % 65536])]) []
-  groups.reverse.map fun p => { key := p.1, store := storeOfSorted p.2.reverse }
-
--- stand-in until Ops.lean is merged
-def standIn2 (f : List Nat → List Nat → List Nat) (a b : Bitmap) : Bitmap :=
-  bitmapOfSorted (f (Bitmap.elems a) (Bitmap.elems b))
-
--- stand-in until MultiOps.lean is merged
-def standInFold (f : List Nat → List Nat → List Nat) (bs : List Bitmap) : Bitmap :=
-  bitmapOfSorted (bs.foldl (fun acc b => f acc (Bitmap.elems b)) [])
--- stand-in until MultiOps.lean is merged
-def standInHeadFold (f : List Nat → List Nat → List Nat) : List Bitmap → Bitmap
-  | [] => []
-  | b :: bs => bitmapOfSorted (bs.foldl (fun acc b => f acc (Bitmap.elems b)) (Bitmap.elems b))
-
--- stand-in until Ops.lean / MultiOps.lean are merged
-def standInOps32 : Ops32 where
-  orAO := standIn2 Spec.sOr
-  orAR := standIn2 Spec.sOr
-  andAR := standIn2 Spec.sAnd
-  subAR := standIn2 Spec.sSub
-  xorAO := standIn2 Spec.sXor
-  xorAR := standIn2 Spec.sXor
-  interLen := fun a b => (Spec.sAnd (Bitmap.elems a) (Bitmap.elems b)).length
-  isSubset := fun a b => Spec.isSubset (Bitmap.elems a) (Bitmap.elems b)
-  isDisjoint := fun a b => Spec.isDisjoint (Bitmap.elems a) (Bitmap.elems b)
-  multiOrOwn := standInFold Spec.sOr
-  multiOrRef := standInFold Spec.sOr
-  multiAndOwn := standInHeadFold Spec.sAnd
-  multiAndRef := standInHeadFold Spec.sAnd
-  multiSubOwn := standInHeadFold Spec.sSub
-  multiSubRef := standInHeadFold Spec.sSub
-  multiXorOwn := standInFold Spec.sXor
-  multiXorRef := standInFold Spec.sXor
+/-! The treemap code is parametrised over the 32-bit operations (`Ops32`); the driver runs it with
+`Ops32.model` (TreemapOps.lean): the mirrored 32-bit binary operations (Ops.lean), relations (Cmp.lean) and
+multi-ops (MultiOps.lean), each in exactly the form treemap/ops.rs, cmp.rs and multiops.rs call on the inner
+`RoaringBitmap`s. -/
 
 /-- the six operand forms of one operator -/
 def binForm (oo or_ ro rr ao ar : Treemap → Treemap → Treemap) : String → Option (Treemap → Treemap → Treemap)
@@ -88,7 +37,7 @@ def specMulti (op : Treemap.MultiOp) (ss : List (List Nat)) : List Nat :=
   | .sub, s :: rest => rest.foldl Spec.sSub s
 
 def opsTreemapAlg : Handler := fun st toks =>
-  let O := standInOps32
+  let O := Ops32.model
   let t? (t : String) := ((parseSlot 't' t).filter (· < 64)).bind fun i => (st.getT i).map fun s => (i, s)
   let bin (f : Option (Treemap → Treemap → Treemap)) (g : List Nat → List Nat → List Nat) (d l r : String) :
       Option (DState × String) := do
